@@ -31,7 +31,10 @@ func init() {
 		Level: "exploration",
 		Rule: "genuine case = one AA response produced by the harness chip for a DG15 key (RSA moduli 1024, 1025..1031, 1536, 2048, 3072, 4096 x trailers BC/38CC/34CC/36CC/35CC x M1 shapes; ECDSA on all 11 curves x plain / DER) and a challenge, validated by activeauth.ValidateActiveAuthSignature; " +
 			"mutation case = that response with one alteration (bit flips of signature / challenge / key, signature by another key, right hash under a wrong trailer, hash over another challenge, M1 altered, s+N, zero-prefixed values, DER with trailing bytes); oracle: library accepts => the integer-valued reference accepts; genuine => library accepts; " +
-			"plumbing case = DoActiveAuth with a caller-supplied challenge against the simulated chip (challenge on the wire = recorded nonce = supplied challenge); non-trivial = every validation; distinct = (key, challenge, variant bytes)",
+			"plumbing case = DoActiveAuth with a caller-supplied challenge against the simulated chip (challenge on the wire = recorded nonce = supplied challenge); non-trivial = every validation; distinct = (key, challenge, variant bytes); " +
+			"shape case = genuine ECDSA responses constructed to have a given encoding shape (plain r||s starting like a DER header 30 L-2 / 30 81 L-3 / 30 80 / 30 82, r or s starting 30 / 02 / 00, DER with every INTEGER padding / length combination) on one curve: must be accepted by ValidateActiveAuthSignature, a live DoActiveAuth and VerifyEvidence; " +
+			"crafted case = RSA responses S = F^d mod N for short and degenerate recovered messages F (0..6 octets, every trailer, digest lengths 0..hashlen+4): accepted => reference accepts, no panic; " +
+			"buffer case = the caller's challenge buffer is changed after WithChallenge / WithAAChallenge (activeauth, reader, mobile, verifiers): chip-side challenge and recorded nonce equal the value handed over",
 		MinEvaluations: 3000,
 		Assumptions: []string{
 			"reference RSA recovery: F = s^e mod n as a byte string without leading zero octets must be 6A || M1 || H(M1 || RND.IFD) || trailer with the hash named by the trailer; reference ECDSA: ecref.Verify over H(RND.IFD), H by key size (>=512 SHA-512, >=384 SHA-384, >=256 SHA-256, else SHA-224), r||s split in halves or DER",
@@ -642,4 +645,40 @@ func runC07(c *fw.Ctx) {
 	})
 	np := c.Pick(60, 600)
 	c.Cases(np, func(i int) string { return fmt.Sprintf("plumbing|i=%d", i) }, func(i int, k *fw.K) { c07Plumbing(k, i) })
+
+	// genuine ECDSA responses of constructed shapes (c07_shapes.go): every curve, named and
+	// explicit parameters
+	c07ShapeSelfTest()
+	ns := c.Pick(33, 660)
+	c.Cases(ns, func(i int) string {
+		return fmt.Sprintf("ec-shapes|curve=%s|group=%s|i=%d", ecref.All()[i%11].Name, c07ECShapeGroups[(i/11)%3], i)
+	}, func(i int, k *fw.K) {
+		k.Nontrivial("")
+		c07ECShapeCase(c, k, i)
+	})
+	// hostile key holder: responses that open to a chosen recovered message (c07_crafted.go)
+	type ck struct{ bits, idx int }
+	var cks []ck
+	for _, b := range []int{1024, 1027, 1031, 2048} {
+		cks = append(cks, ck{b, 0})
+	}
+	if c.Thorough() {
+		cks = nil
+		for _, b := range c07RSABits {
+			for idx := 0; idx < min(2, issuer.RSAKeyCount(b)); idx++ {
+				cks = append(cks, ck{b, idx})
+			}
+		}
+	}
+	c.Cases(len(cks)*len(c07CraftGroups), func(i int) string {
+		return fmt.Sprintf("crafted-recovered-message|bits=%d|group=%s|i=%d", cks[i/len(c07CraftGroups)].bits, c07CraftGroups[i%len(c07CraftGroups)], i)
+	}, func(i int, k *fw.K) {
+		k.Nontrivial("")
+		c07CraftedCase(c, k, cks[i/len(c07CraftGroups)].bits, cks[i/len(c07CraftGroups)].idx, i%len(c07CraftGroups))
+	})
+	// the caller's challenge buffer changes after the hand-over (c07_buffers.go)
+	c.Cases(c.Pick(42, 420), func(i int) string { return fmt.Sprintf("challenge-buffer-direct|i=%d", i) }, func(i int, k *fw.K) { c07BufferDirect(k, i) })
+	c.Cases(c.Pick(10, 100), func(i int) string { return fmt.Sprintf("challenge-buffer-reader|i=%d", i) }, func(i int, k *fw.K) { c07BufferReader(k, i) })
+	c.Cases(c.Pick(5, 50), func(i int) string { return fmt.Sprintf("challenge-buffer-mobile|i=%d", i) }, func(i int, k *fw.K) { c07BufferMobile(k, i) })
+	c.Cases(c.Pick(16, 160), func(i int) string { return fmt.Sprintf("challenge-buffer-verifier|i=%d", i) }, func(i int, k *fw.K) { c07BufferVerifier(k, i) })
 }
